@@ -71,6 +71,19 @@ def pairs():
     return out
 
 
+def exhaustive(maxlen, wire):
+    """small scope, exhaustively: EVERY operation sequence up to `maxlen` over two peers that share the host
+    (ports 1000 / 1001) and a six-operation alphabet each (two opens colliding in connection ID, both payloads,
+    a close, the end)"""
+    import itertools
+    alpha = []
+    for p in (1000, 1001):
+        alpha += [f"o:1:{p}:5:7:p", f"o:1:{p}:5:8:r", f"s:1:{p}:5:d", f"s:1:{p}:5:g", f"c:1:{p}:7", f"e:1:{p}"]
+    for n in range(1, maxlen + 1):
+        for ops in itertools.product(alpha, repeat=n):
+            yield {"op": "fwd", "wire": wire, "ops": list(ops)}
+
+
 class Sim:
     def __init__(self):
         import cpppo
